@@ -146,6 +146,31 @@ theorem gen_parser_classes_plain :
     htmlBases = ["HTMLParser"] ∧ epubBases = ["HTMLParser"] ∧
     htmlInitResets ≠ [] ∧ epubInitResets ≠ [] := by decide +kernel
 
+/-- ONE DRIVER.  The theorems quantify over the event sequence the machine receives, and the correspondence identifies
+    that sequence with what `HTMLParser.feed` delivers for the document text.  That identification needs: nothing in the
+    package but the two `handle_startendtag` methods (whose start+end expansion is the model's `.startend` case and is
+    translated in `C17_Src`) calls a handler, takes one as a value or names one in a string.  A second driver — a tree
+    walk over an XML parse, a pre-pass, a re-delivery of buffered text — decides on its own which calls the gate sees
+    (e.g. it may skip the text that follows a removed element) and is outside every theorem of C17. -/
+theorem gen_handlers_driven_by_feed_only :
+    handlerCalls.all (fun c =>
+      (c.2.1 == "_HtmlTreeBuilder.handle_startendtag" || c.2.1 == "_XhtmlTextExtractor.handle_startendtag") &&
+      (c.2.2 == "handle_starttag" || c.2.2 == "handle_endtag")) = true := by decide +kernel
+
+/-- NO SIDE DOOR.  The only methods of the two classes that can change a parser object's state are `__init__` and the
+    handlers modelled in `Model/HtmlSkip.lean` (and translated in `C17_Src`): the getters and any helper are read-only, so
+    the state the getters report is the state the modelled handlers built from the delivered calls. -/
+theorem gen_state_written_by_modelled_handlers_only :
+    stateWriters.all (fun m =>
+      ["_HtmlTreeBuilder", "_XhtmlTextExtractor"].any (fun c =>
+        ["__init__", "handle_starttag", "handle_endtag", "handle_startendtag", "handle_data", "handle_comment"].any
+          (fun h => m == c ++ "." ++ h))) = true := by decide +kernel
+
+/-- the two inventories are not blind -/
+theorem gen_driver_inventory_cover :
+    handlerCalls.length = 4 ∧ stateWriters.any (· == "_XhtmlTextExtractor.handle_data") = true ∧
+    stateWriters.any (· == "_HtmlTreeBuilder.handle_starttag") = true := by decide +kernel
+
 /-! ## Counterexamples for the reused parser (replayed on the real code by the harness: they hold on the source as
 it is and fail as soon as a parser object's gate state survives into the next document) -/
 
